@@ -25,6 +25,8 @@ pub enum Op {
     Send { c: u64, ovh: u64 },
     /// record_sent with a value not above the current sent offset (must be ignored)
     SentStale { back: u64 },
+    /// record_sent(sent + ahead) WITHOUT a push to the replay ring (the ring is optional; bytes can go out that were never staged)
+    SentAhead { ahead: u64 },
     Ack { file: u32, off: u64 },
     Cancel { reason: u8 },
     Advance { file: u32 },
@@ -140,6 +142,12 @@ fn apply(ctl: &TransferControl, m: &mut Model, op: &Op) -> (Res, Res) {
         }
         Op::SentStale { back } => {
             ctl.record_sent(m.sent.saturating_sub(*back));
+            (Res::Unit, Res::Unit)
+        }
+        Op::SentAhead { ahead } => {
+            let new = m.sent.saturating_add(*ahead);
+            ctl.record_sent(new);
+            m.sent = new;
             (Res::Unit, Res::Unit)
         }
         Op::Ack { file, off } => {
@@ -398,7 +406,7 @@ fn random_op(r: &mut Rng, m_file_hint: u32, c13: bool) -> Op {
             9 => Op::Credit { c: chunk(r) },
             10 => Op::Advance { file: r.below(3) as u32 },
             11 => Op::Resume { peer: 1 + r.below(1000), file, off: if r.coin() { r.boundary_u64() } else { small(r) } },
-            12 => Op::SentStale { back: r.below(5) },
+            12 => if r.coin() { Op::SentStale { back: r.below(5) } } else { Op::SentAhead { ahead: 1 + r.below(9) } },
             13 => if r.chance(1, 5) { Op::Cancel { reason: r.below(3) as u8 } } else { Op::Credit { c: small(r) } },
             14 => if r.coin() { Op::Reconnect } else { Op::Push { d: 1 + r.below(9), ovh: r.below(3), last: false } },
             _ => Op::Send { c: 1 + r.below(8), ovh: r.below(3) },
@@ -674,6 +682,54 @@ pub fn run(args: &Args, c13: bool) -> Report {
         rep.set("resume_while_parked_trials", json!({"resume_arrived_while_parked": parked_first, "resume_staged_before_wait": staged_first, "schedule_not_forced": not_forced}));
         if parked_first == 0 {
             rep.inconclusive("no trial had the resume arrive while the producer was parked");
+        }
+    }
+    // (e) C13 only: request_resume racing advance_to_file. Whatever the order, a resume for file 0 is either accepted before the
+    // advance (and then discarded by it) or rejected after it (wrong file): once both returned, no resume is pending. A resume
+    // validated against file 0 but staged after the advance would be handed out for file 1.
+    if c13 {
+        let trials = if miri { 4 } else { args.budget(4_000, 100_000) };
+        let (mut resume_first, mut advance_first) = (0u64, 0u64);
+        for t in 0..trials {
+            let ctl = TransferControl::with_replay_capacity(1 << 20, 1 << 20);
+            for i in 0..3u64 {
+                ctl.push_replay(i * 4, 4, false, vec![i as u8; 4]);
+                ctl.record_sent((i + 1) * 4);
+            }
+            let off = 4 * (t % 4);
+            let barrier = std::sync::Barrier::new(2);
+            let accepted = std::thread::scope(|sc| {
+                let a = sc.spawn(|| {
+                    barrier.wait();
+                    ctl.request_resume(peer(9), 0, off).is_ok()
+                });
+                let b = sc.spawn(|| {
+                    barrier.wait();
+                    if t % 3 == 0 {
+                        std::hint::spin_loop();
+                    }
+                    ctl.advance_to_file(1);
+                });
+                let r = a.join().unwrap_or(false);
+                let _ = b.join();
+                r
+            });
+            rep.eval();
+            rep.distinct(&("resume-vs-advance", accepted, off));
+            if accepted { resume_first += 1 } else { advance_first += 1 }
+            let after = ctl.wait_for_reconnect(Duration::ZERO);
+            if let ReconnectOutcome::ResumeReady(pr) = &after {
+                found.lock().unwrap().push((
+                    "C13:resume-racing-advance:pending-resume-survives-the-advance".into(),
+                    format!("request_resume(file 0, offset {off}) raced advance_to_file(1) (resume returned accepted={accepted}); after both had returned a resume at offset {} is pending although the control is on file 1", pr.resume_at_offset),
+                    json!({"part": "resume-vs-advance", "trial": t, "offset": off, "ops": []}),
+                ));
+                break;
+            }
+        }
+        rep.set("resume_vs_advance_trials", json!({"resume_accepted_first": resume_first, "advance_first": advance_first}));
+        if !miri && (resume_first == 0 || advance_first == 0) {
+            rep.inconclusive(format!("resume-vs-advance race never went both ways ({resume_first} / {advance_first})"));
         }
     }
     quiet_panics(false);
